@@ -19,7 +19,58 @@ pub(crate) struct Index<K> {
     pub paths: DbPaths,
     pub state: Arc<RwLock<IndexState<K>>>,
     pub wal: Mutex<WalManager>,
-    pub pending_intents: Mutex<HashMap<K, BlobHash>>,
+    pub pending_intents: Mutex<PendingIntents<K>>,
+}
+
+/// Intents of in-flight commits.
+///
+/// `by_key` remembers the latest intent per key. What keeps a blob from being reclaimed is
+/// `protected`: how many in-flight commits are about to reference each hash. Several commits
+/// may target the same key at once, so one slot per key is not enough to protect the blob of
+/// each of them until its own index update.
+pub(crate) struct PendingIntents<K> {
+    by_key: HashMap<K, BlobHash>,
+    protected: HashMap<BlobHash, u32>,
+}
+
+impl<K> Default for PendingIntents<K> {
+    fn default() -> Self {
+        Self { by_key: HashMap::default(), protected: HashMap::default() }
+    }
+}
+
+impl<K: Eq + std::hash::Hash> PendingIntents<K> {
+    /// The latest pending intent for `key`.
+    #[allow(dead_code)] // inspected by the unit tests
+    pub fn get(&self, key: &K) -> Option<&BlobHash> {
+        self.by_key.get(key)
+    }
+}
+
+impl<K> PendingIntents<K> {
+    /// Number of keys that have a pending intent.
+    #[allow(dead_code)] // inspected by the unit tests
+    pub fn len(&self) -> usize {
+        self.by_key.len()
+    }
+
+    /// True while at least one in-flight commit is about to reference `hash`.
+    pub fn is_protected(&self, hash: &BlobHash) -> bool {
+        self.protected.contains_key(hash)
+    }
+
+    fn protect(&mut self, hash: BlobHash) {
+        *self.protected.entry(hash).or_default() += 1;
+    }
+
+    fn unprotect(&mut self, hash: &BlobHash) {
+        if let Some(count) = self.protected.get_mut(hash) {
+            *count = count.saturating_sub(1);
+            if *count == 0 {
+                self.protected.remove(hash);
+            }
+        }
+    }
 }
 
 /// A read-only view of the index state.
@@ -179,6 +230,8 @@ where
     size: u64,
     replaced_hash: Option<BlobHash>,
     committed: bool,
+    /// Set once the commit path has dropped this guard's protection of `hash`.
+    released: bool,
 }
 
 #[derive(Debug, Clone, Copy)]
@@ -196,7 +249,11 @@ where
         mut self,
         delete_fn: &crate::types::DeleteBlobCallFn,
     ) -> Result<(), IndexError> {
-        self.index.apply_put_op(self.key.clone(), self.hash, self.size, delete_fn)?;
+        let mut released = false;
+        let result =
+            self.index.apply_put_op(self.key.clone(), self.hash, self.size, delete_fn, &mut released);
+        self.released = released;
+        result?;
         self.committed = true;
         Ok(())
     }
@@ -213,14 +270,18 @@ where
             crate::verif::point("I:intent_drop");
             let mut intents = self.index.pending_intents.lock();
 
-            if let Some(current_hash) = intents.get(&self.key)
+            if !self.released {
+                intents.unprotect(&self.hash);
+            }
+
+            if let Some(current_hash) = intents.by_key.get(&self.key)
                 && *current_hash == self.hash
             {
-                intents.remove(&self.key);
+                intents.by_key.remove(&self.key);
 
                 // If we had replaced an existing intent, restore it
                 if let Some(replaced_hash) = self.replaced_hash {
-                    intents.insert(self.key.clone(), replaced_hash);
+                    intents.by_key.insert(self.key.clone(), replaced_hash);
                 }
             }
         }
@@ -257,7 +318,7 @@ where
             paths,
             state,
             wal: Mutex::new(wal_manager),
-            pending_intents: Mutex::new(HashMap::default()),
+            pending_intents: Mutex::new(PendingIntents::default()),
         };
 
         // Only checkpoint after replay if we actually replayed something
@@ -291,10 +352,11 @@ where
         let mut intents = self.pending_intents.lock();
 
         // Check if there was a previous intent for this key
-        let replaced_hash = intents.get(&key).copied();
+        let replaced_hash = intents.by_key.get(&key).copied();
 
-        // Insert the new intent
-        intents.insert(key.clone(), meta.blob_hash);
+        // Insert the new intent and protect its blob until this commit is applied or dropped
+        intents.by_key.insert(key.clone(), meta.blob_hash);
+        intents.protect(meta.blob_hash);
 
         Ok(IntentGuard {
             index: self,
@@ -303,6 +365,7 @@ where
             size: meta.blob_size,
             replaced_hash,
             committed: false,
+            released: false,
         })
     }
 
@@ -312,6 +375,7 @@ where
         hash: BlobHash,
         size: u64,
         delete_fn: &crate::types::DeleteBlobCallFn,
+        released: &mut bool,
     ) -> Result<(), IndexError> {
         let logical_op = WalOp::Put { key: key.clone(), hash, size };
         #[cfg(feature = "verif")]
@@ -330,11 +394,16 @@ where
             (hashes, rolled)
         };
 
-        intents.remove(&key);
+        // The index references `hash` now: drop this commit's own protection, and its key
+        // entry unless a later commit for the same key has taken the slot over.
+        intents.unprotect(&hash);
+        *released = true;
+        if intents.by_key.get(&key) == Some(&hash) {
+            intents.by_key.remove(&key);
+        }
 
         // Filter out any unreferenced hashes that are still referenced by other intents
-        unreferenced_from_op
-            .retain(|hash| !intents.values().any(|intent_hash| intent_hash == hash));
+        unreferenced_from_op.retain(|hash| !intents.is_protected(hash));
 
         // Delete blobs BEFORE any checkpoint
         if !unreferenced_from_op.is_empty() {
@@ -381,8 +450,7 @@ where
         };
 
         // Remove any unreferenced hashes that are still referenced by intents
-        unreferenced_from_op
-            .retain(|hash| !intents.values().any(|intent_hash| intent_hash == hash));
+        unreferenced_from_op.retain(|hash| !intents.is_protected(hash));
 
         // Delete blobs BEFORE any checkpoint
         if !unreferenced_from_op.is_empty() {
